@@ -1246,6 +1246,11 @@ func (x *Exec) convert(st *State, v Val, from, to types.Type) Val {
 		if same {
 			return Val{T: to, L: v.L}
 		}
+		if len(fl) == 1 && (fl[0].Sort == "Real" || tl[0].Sort == "Real") {
+			// numeric conversion involving floating point: the value is not tracked
+			x.notes = append(x.notes, "floating point conversion: result unconstrained")
+			return st.freshVal("fconv", to)
+		}
 	}
 	panic(unsupported(fmt.Sprintf("conversion %s -> %s", from, to)))
 }
